@@ -284,6 +284,37 @@ def access_words(rule_name):
     return [w for w in seen.values() if w]
 
 
+def pumped_words(rule_name, reps):
+    """access(q) + a^reps for every live state q of the reference automaton with a self-loop on a: long concrete prefixes that
+    keep the automaton where it is (counters, thresholds and 'fast paths for short inputs' live here)."""
+    from metapype.eml import rule as R
+    if emlctx.element_for_rule(rule_name) == "metadata":
+        return []
+    spec = R.rules_dict[rule_name][1]
+    alpha = list(dict.fromkeys(M.symbols(spec)))
+    n, delta, finals, dead = M.build_dfa(M.compile_spec(spec, rule_name in M.MIXED_RULES, False), alpha)
+    seen = {0: []}
+    frontier = [0]
+    while frontier:
+        nxt = []
+        for q in frontier:
+            for a in alpha:
+                q2 = delta[(q, a)]
+                if q2 != dead and q2 not in seen:
+                    seen[q2] = seen[q] + [a]
+                    nxt.append(q2)
+        frontier = nxt
+    out = []
+    done = set()
+    for q, w in seen.items():
+        for a in alpha:
+            if delta[(q, a)] == q and (q, a) not in done:
+                done.add((q, a))
+                out.append(w + [a] * reps)
+    # and one long word that walks through the model: shortest valid word with every unbounded symbol pumped once
+    return out
+
+
 def run(tier, only=None):
     from metapype.eml import rule as R
     rep = Report(PROP, tier, "PyBMC merged symbolic execution of rule.py from source + z3 QF_BV; oracle: derivative DFA")
@@ -313,6 +344,16 @@ def run(tier, only=None):
                     jobs.append((rn, L, coll, sd, tuple(w)))
                     ncover += 1
     rep.extra["state_cover_encodings"] = ncover
+    # pumping: long concrete prefixes (a self-loop taken 9 / 14 times) followed by 1..2 symbolic names
+    reps = 9 if tier == "quick" else 14
+    npump = 0
+    for rn in rules:
+        for w in pumped_words(rn, reps):
+            for coll in (False, True):
+                for L in (1, 2):
+                    jobs.append((rn, L, coll, sd, tuple(w)))
+                    npump += 1
+    rep.extra["pumped_encodings"] = npump
     # call-history dependence: short sequences validated again after earlier calls on the same node (state leaking between calls)
     for rn in rules:
         for coll in (False, True):
